@@ -114,7 +114,7 @@ type FnGen struct {
 	ghostLocals     map[string]Val
 	qfacts          []QFact
 	sumUnfolded     map[string]bool
-	acquired        map[string]State // monitor owner term -> state right after its mutex was acquired
+	acquired        map[string]State  // monitor owner term -> state right after its mutex was acquired
 	acquiredType    map[string]string // monitor owner term -> its struct type name
 	autoInvs        map[*ssa.BasicBlock][]autoInv
 	loopTypeInvObjs map[*ssa.BasicBlock][]Val
